@@ -286,7 +286,7 @@ func init() {
 			"Iterate equals the map, every reachable node is in the store. A history is non-trivial if it contains at least one successful delete that changed the number of branch or extension nodes; distinct by full trace hash",
 		Cases: func(tier string) int {
 			if tier == "thorough" {
-				return 640000
+				return 400000
 			}
 			return 16000
 		},
